@@ -6,14 +6,25 @@ T3(nl) == [cat |-> <<"A","N","T","H","S","R","C","E">>, id |-> 1, unit |-> <<"k"
 TracerLists == { <<T1(3)>>, <<T1(2), T2(1)>>, <<T2(1), T1(3)>>, <<T1(3), T2(2), T3(1)>>, <<T3(1), T1(1)>>, <<T1(1), T3(2), T2(3)>> }
 Configs == { [tr |-> tl, ni |-> g[1], nj |-> g[2], i0 |-> o, j0 |-> o, nt |-> nt, tau |-> 140256] :
               tl \in TracerLists, g \in { <<1, 1>>, <<2, 1>>, <<2, 3>>, <<3, 2>> }, o \in {1, 3}, nt \in 1..3 }
-VARIABLE c
-Init == c \in Configs
-Next == UNCHANGED c
-Spec == Init /\ [][Next]_c
-InvHeaderSizes == HeaderSizes(c)
-InvWalk == WalkFindsBlock(c)
-InvTiles == BpchBytes(c) = 136 + c.nt * BlockSize(c)
-EmitConstraint == IF IOEnv.PNC_EMIT = "1"
-  THEN PrintT(ToJson([cfg |-> c, recs |-> BpchLayout(c), bytes |-> BpchBytes(c), block |-> BlockSize(c)]))
+\* c: configuration; n: cut offset (walked only when PNC_BPCH_CUTS = 1); z: cached sizes
+VARIABLES c, n, z
+vars == <<c, n, z>>
+Cuts == IOEnv.PNC_BPCH_CUTS = "1"
+Init == c \in Configs /\ n = 0 /\ z = [pos |-> PosSeq(c), fb |-> BpchBytes(c), bb |-> BlockSize(c)]
+Next == Cuts /\ n < z.fb /\ n' = n + 1 /\ UNCHANGED <<c, z>>
+Spec == Init /\ [][Next]_vars
+InvHeaderSizes == n > 0 \/ HeaderSizes(c)
+InvWalk == n > 0 \/ WalkFindsBlock(c)
+InvTiles == n > 0 \/ (z.fb = 136 + c.nt * z.bb /\ z.pos[Len(c.tr) + 1] = 136 + z.bb)
+\* truncation (C14): with all tracers of a block discovered only complete blocks are exposed
+Open == BpchOpenZ(z.pos, Len(c.tr), n)
+Complete == IF n < 136 THEN 0 ELSE (n - 136) \div z.bb
+BpchNeverFabricates == (Open.k = "Steps" /\ Open.K = Len(c.tr)) => Open.n <= Complete
+BpchFullFileReadsAll == n = z.fb => Open = [k |-> "Steps", n |-> c.nt, K |-> Len(c.tr)]
+\* ... and a step with fewer tracers is exposed exactly when the file ends on a
+\* tracer boundary inside the first block (the format has no tracer count: C14_K3)
+BpchPartialBlock == (Open.k = "Steps" /\ Open.K < Len(c.tr)) => (n = z.pos[Open.K + 1] /\ Open.n = 1)
+EmitConstraint == IF IOEnv.PNC_EMIT = "1" /\ n = 0
+  THEN PrintT(ToJson([cfg |-> c, recs |-> BpchLayout(c), bytes |-> z.fb, block |-> z.bb, pos |-> z.pos]))
   ELSE TRUE
 =================================================================================
